@@ -91,14 +91,15 @@ def edge_facts(b, bb):
             elif l is not None and not t["op"]["place"]["p"] and b.locals[l]["ty"] == "bool" and not src:
                 # a flag with several definitions (`a > b && c > d` lowered to control flow)
                 tf0 = true_false_edges(b, sb, t)
-                if tf0 and _depth[0] < 3 and b.edge_dominates(tf0[0], bb):
-                    _depth[0] += 1
-                    try:
-                        fs = true_facts(b, t["op"], sb)
-                    finally:
-                        _depth[0] -= 1
-                    if fs != ALL:
-                        out |= fs
+                for e_, fn_ in ((tf0[0], true_facts), (tf0[1], false_facts)) if tf0 else ():
+                    if _depth[0] < 3 and b.edge_dominates(e_, bb):
+                        _depth[0] += 1
+                        try:
+                            fs = fn_(b, t["op"], sb)
+                        finally:
+                            _depth[0] -= 1
+                        if fs != ALL:
+                            out |= fs
             continue
         tf = true_false_edges(b, sb, t)
         if not tf:
@@ -113,14 +114,17 @@ def edge_facts(b, bb):
             op, a, c = src[1]["op"], root(b, src[1]["a"]), root(b, src[1]["b"])
         else:
             # a named flag: `let ok = a > b && c > d; if !ok { return }` — on its true edge everything the flag implies holds
-            if _depth[0] < 3 and b.edge_dominates(te, bb):
-                _depth[0] += 1
-                try:
-                    fs = true_facts(b, t["op"], sb)
-                finally:
-                    _depth[0] -= 1
-                if fs != ALL:
-                    out |= fs
+            # (te/fe are already swapped for a negated source, so the flag itself is evaluated un-negated: src[3] is its local)
+            flag_op = t["op"]
+            for e_, fn_ in ((tf[0], true_facts), (tf[1], false_facts)):
+                if _depth[0] < 3 and b.edge_dominates(e_, bb):
+                    _depth[0] += 1
+                    try:
+                        fs = fn_(b, flag_op, sb)
+                    finally:
+                        _depth[0] -= 1
+                    if fs != ALL:
+                        out |= fs
             continue
         if b.edge_dominates(te, bb):
             f = norm_fact(op, a, c)
@@ -166,6 +170,50 @@ def true_facts(b, op, at, depth=0):
             elif rv["k"] == "bin" and rv["op"] == "BitAnd":
                 x, y = true_facts(b, rv["a"], d["bb"], depth + 1), true_facts(b, rv["b"], d["bb"], depth + 1)
                 fs = ALL if ALL in (x, y) else x | y
+            elif rv["k"] == "un" and rv.get("op") == "Not":
+                fs = false_facts(b, rv.get("a"), d["bb"], depth + 1)
+            else:
+                fs = set()
+        if fs != ALL:
+            fs = fs | edge_facts(b, d["bb"])
+        if fs == ALL:
+            continue
+        res = fs if res is None else (res & fs)
+    return ALL if res is None else res
+
+
+def false_facts(b, op, at, depth=0):
+    """Set of comparison facts guaranteed whenever the boolean operand is false (ALL = it is never false)."""
+    if depth > 6 or not isinstance(op, dict):
+        return set()
+    if op.get("k") == "const":
+        return ALL if op.get("v") is True else set()
+    l = operand_local(op)
+    if l is None or op["place"]["p"]:
+        return set()
+    res = None
+    for d in b.defs().get(l, ()):
+        if d["kind"] == "param":
+            return set()
+        if d.get("bb", -1) >= 0 and not b.def_reaches(d, at):
+            continue
+        if d["kind"] == "call" and d["call"].matches(r"std::cmp::PartialOrd::(lt|le|gt|ge)", r"std::cmp::PartialEq::(eq|ne)") and len(d["call"].args) == 2:
+            f = norm_fact(NEG[K.meth(d["call"].path).capitalize()], ref_root(b, d["call"].args[0]), ref_root(b, d["call"].args[1]))
+            fs = {f} if f else set()
+        elif d["kind"] != "assign":
+            fs = set()
+        else:
+            rv = d["rv"]
+            if rv["k"] == "use":
+                fs = false_facts(b, rv["op"], d["bb"], depth + 1)
+            elif rv["k"] == "bin" and rv["op"] in NEG:
+                f = norm_fact(NEG[rv["op"]], root(b, rv["a"]), root(b, rv["b"]))
+                fs = {f} if f else set()
+            elif rv["k"] == "bin" and rv["op"] == "BitOr":
+                x, y = false_facts(b, rv["a"], d["bb"], depth + 1), false_facts(b, rv["b"], d["bb"], depth + 1)
+                fs = ALL if ALL in (x, y) else x | y
+            elif rv["k"] == "un" and rv.get("op") == "Not":
+                fs = true_facts(b, rv.get("a"), d["bb"], depth + 1)
             else:
                 fs = set()
         if fs != ALL:
@@ -436,10 +484,14 @@ def run(ctx, crate):
         rest_calls = [c for c in d.calls() if c.args and d.slice_args(c, [0], through_calls=False).has_field("rest", BD) and K.meth(c.generic) == "fmt"]
         n_fill = len(fills) + len(repeat_ws)
         stray = [c for c in ws if c not in part_ws and c not in repeat_ws and not d.in_loop(c.bb)]
-        ctx.check(n_fill == 1 and len(part_ws) == 1 and len(rest_calls) == 1 and not stray, rule, "three-segments", d.name, K.fn_loc(d),
+        # the delegation to the background may be spelled once per arm (`match cur { Some => {..; rest.fmt(f)}, None => rest.fmt(f) }`):
+        # several sites count as one when no execution passes two of them
+        exclusive = all(x.bb not in d.reach_after(y.bb) for x in rest_calls for y in rest_calls if x is not y)
+        one_rest = len(rest_calls) >= 1 and exclusive
+        ctx.check(n_fill == 1 and len(part_ws) == 1 and one_rest and not stray, rule, "three-segments", d.name, K.fn_loc(d),
                   "one repeated write for the filled segment, one write for the partial cell, one delegation to the background",
                   "BarDisplay::fmt no longer has the three segments (filled writes %d, partial writes %d, rest %d, other writes %d)" % (n_fill, len(part_ws), len(rest_calls), len(stray)), cfg)
-        if n_fill == 1 and len(part_ws) == 1 and len(rest_calls) == 1:
+        if n_fill == 1 and len(part_ws) == 1 and one_rest:
             ow, rc = part_ws[0], rest_calls[0]
             if fills:
                 r = fills[0]
@@ -458,7 +510,9 @@ def run(ctx, crate):
             osl = d.slice_args(ow, [1])
             ctx.check(not d.in_loop(ow.bb) and osl.has_field("chars", BD) and K.in_variant_region(d, crate, ow.bb, "std::option::Option", {"Some"}), rule, "partial-from-cur", d.name, ow.loc(),
                       "the partial cell is chars[cur], written once and only when cur is Some", "the partial cell is not chars[cur] written once under Some(cur)", cfg)
-            ok_order = (ow.bb not in d.reach_after(rc.bb)) and (site not in d.reach_after(ow.bb)) and (site not in d.reach_after(rc.bb))
+            ok_order = all((ow.bb not in d.reach_after(rc_.bb)) and (site not in d.reach_after(rc_.bb)) for rc_ in rest_calls) and (site not in d.reach_after(ow.bb))
+            # ... and the background follows the partial cell on its success path (not only in the arm without a partial cell)
+            ok_order = ok_order and any(rc_.bb in d.reach_after(ow.bb) for rc_ in rest_calls)
             ctx.check(ok_order, rule, "filled-partial-background", d.name, K.fn_loc(d), "segments are written in the order filled, partial, background",
                       "the segments of the bar are written in a different order", cfg)
     r = K.find_one(ctx, crate, rule, r"<style::RepeatedStringDisplay<'_> as std::fmt::Display>::fmt")
